@@ -81,7 +81,8 @@ def run_histories(jobs: List[Dict[str, Any]], wd: Path, *, module: str = "harnes
                 e = pending[hung_tid]["e"]
                 prev = evs[-1]
                 evs.append({**prev, "op": e["op"], "p": e.get("p", []), "q": e.get("q", []),
-                            "key": e.get("key", ""), "v": e.get("v", ""), "ok": False,
+                            "key": e.get("key", ""), "v": e.get("v", ""), "shallow": bool(e.get("shallow", False)),
+                            "noattrs": bool(e.get("noattrs", False)), "ok": False,
                             "exc": "TIMEOUT", "timeout": True, "hasraw": False, "raw": [], "cdisk": {}, "viewerr": "",
                             "info": {k: e[k] for k in ("via", "how", "mode", "bylist") if k in e}})
                 hangs.append(hung_tid)
